@@ -1,6 +1,7 @@
 import os, sys
 sys.path.insert(0, os.path.join(os.path.dirname(os.path.abspath(__file__)), "..", "common"))
 import cxx_specs as XS
+from imports import imported
 
 PROPERTY = "C15"
 LEVEL = "proof"
@@ -35,3 +36,8 @@ OBLIGATIONS = [
     {"name": "create_vm_fails_cleanly", "files": [{"cxx": XS.RX_CREATE_VM_EXC, "out": "rx.c", "header": True}, "harness_create_vm_fail.c"],
      "incdirs": INC, "defines": ['RXV_CONTRACTS_H="decls_create_vm.h"'], "entry": "h_create_vm_fail", "expect_classes": ["assertion"], "expect_min": 5, "replay": ALLOC_REPLAY},
 ]
+# request side of the scratchpad pair: VmBase::allocate asks for exactly ScratchpadSize bytes (the size is a precondition of the
+# allocator stand-in) and stores the result in `scratchpad` - the pointer and size ~VmBase returns (obligation above)
+_alloc = imported("C14", "vm_allocate_writes_only_thread_owned_objects_hard_aes", "vm_allocate_requests_exactly_the_size_the_destructor_returns")
+_alloc.pop("replay", None)
+OBLIGATIONS.insert(2, _alloc)
